@@ -121,6 +121,18 @@ func genAlign(t *rapid.T, name string) float32 {
 func genCase(t *rapid.T) Case {
 	w, h := genPos(t, "vw"), genPos(t, "vh")
 	dx, dy := genPos(t, "dx"), genPos(t, "dy")
+	if rapid.IntRange(0, 9).Draw(t, "whole") == 0 {
+		// four whole numbers of about the same bit width (1..24 bits, all exact in
+		// float32): pixel targets and integer viewBoxes whose products pass 2^16,
+		// 2^24, 2^31, 2^32 and 2^48
+		b := rapid.IntRange(1, 24).Draw(t, "whole.bits")
+		lo, hi := 1<<(b-1), 1<<b-1
+		if rapid.Bool().Draw(t, "whole.wide") && b > 2 {
+			lo = 1 << (b - 3)
+		}
+		w, h = float32(rapid.IntRange(lo, hi).Draw(t, "whole.w")), float32(rapid.IntRange(lo, hi).Draw(t, "whole.h"))
+		dx, dy = float32(rapid.IntRange(lo, hi).Draw(t, "whole.dx")), float32(rapid.IntRange(lo, hi).Draw(t, "whole.dy"))
+	}
 	if rapid.IntRange(0, 4).Draw(t, "sameaspect") == 0 {
 		// a target of exactly the viewBox's proportions (an icon drawn at k times its size): the two
 		// candidate scales tie up to rounding, whatever the ratio is (1:7 has no exact float32)
@@ -219,6 +231,9 @@ func classify(c Case) (bool, uint64, []string) {
 	}
 	if r := math.Abs(math.Log10(ra / rb)); r > 3 {
 		labels = append(labels, "aspect-mismatch>1e3")
+	}
+	if whole := func(f float64) bool { return f == math.Floor(f) && f < 1<<24 }; whole(vw) && whole(vh) && whole(float64(c.DX)) && whole(float64(c.DY)) && float64(c.DX)*vh >= 1<<31 {
+		labels = append(labels, "whole-number-sizes,cross-product>=2^31")
 	}
 	if math.Max(float64(c.DX), float64(c.DY)) > 1e38 {
 		labels = append(labels, "target-extent-beyond-1e38")
